@@ -686,3 +686,43 @@ def ring_cis_trans(tp: Tape, cls="SMG", lone_pair=None):
     c2 = ring[i2]
     m2.atom_stereo[c2] = sym.invert(m2.atom_stereo[c2])
     return m, m2
+
+
+def symmetric_double(tp: Tape, cls="SMG", nhalf=4, mirror=None):
+    """Two copies of a fragment glued at one atom, decorated so that the
+    swap of the halves maps the graph onto itself (same parities) or onto
+    its mirror image (inverted parities -> meso / achiral)."""
+    m = _double(tp, cls, 2 * nhalf, None, 2)
+    left, right = m._double
+    sigma = {}
+    for a in left:
+        sigma[left[a]] = right[a]
+        sigma[right[a]] = left[a]
+    if mirror is None:
+        mirror = tp.chance(128)
+    dec = m.copy()
+    decorate(tp, dec, p_atom=220, p_bond=120, p_change=0)
+    lset = set(left.values())
+
+    def mapd(d):
+        t = tuple(None if a is None else sigma[a] for a in d[1])
+        par = d[2]
+        if mirror and par in (1, -1):
+            par = -par
+        return (d[0], t, par)
+
+    for k, d in dec.atom_stereo.items():
+        if k in lset:
+            m.atom_stereo[k] = d
+            m.atom_stereo[sigma[k]] = mapd(d)
+    for k, d in dec.bond_stereo.items():
+        x, y = tuple(k)
+        if x in lset and y in lset:
+            m.bond_stereo[k] = d
+            m.bond_stereo[frozenset((sigma[x], sigma[y]))] = mapd(d)
+        elif {sigma[x]} == {y}:       # the glue bond: self-mapped
+            d2 = mapd(d)
+            from vp import symmetry as _s
+            if _s.same_or_unspecified(d, d2):
+                m.bond_stereo[k] = d
+    return m, mirror
